@@ -137,6 +137,31 @@ pub fn handle(op: &str, a: &[&str]) -> Option<Resp> {
                     }
                 }
             }
+            // faults at a particular point of the input stream: an `Interrupted` read is retried and
+            // changes nothing; a hard error after k bytes yields an error, never a partial document
+            if fail.is_none() && s.len() <= 4096 {
+                let b = s.as_bytes();
+                for at in [0usize, 1, b.len() / 2, b.len().saturating_sub(1), b.len()] {
+                    let at = at.min(b.len());
+                    match Deb822::read_relaxed(Faulty { data: b, at, hard: false, pos: 0, fired: false }) {
+                        Ok((d, e)) if d.to_string() == s && e.is_empty() == errs.is_empty() => {}
+                        _ => {
+                            fail = Some(format!("read_relaxed over a reader interrupted once at byte {} differs from from_str_relaxed", at));
+                            break;
+                        }
+                    }
+                    if at < b.len() || b.is_empty() {
+                        if Deb822::read_relaxed(Faulty { data: b, at, hard: true, pos: 0, fired: false }).is_ok() && at < b.len() {
+                            fail = Some(format!("read_relaxed returns a document although the reader failed at byte {}", at));
+                            break;
+                        }
+                        if Deb822::read(Faulty { data: b, at, hard: true, pos: 0, fired: false }).is_ok() && at < b.len() {
+                            fail = Some(format!("read returns a document although the reader failed at byte {}", at));
+                            break;
+                        }
+                    }
+                }
+            }
             if fail.is_none() {
                 // read / read_relaxed over the same bytes
                 match Deb822::read_relaxed(s.as_bytes()) {
@@ -261,6 +286,33 @@ fn lookup_keys(keys: Vec<String>) -> Vec<String> {
     all.extend(own.iter().map(|k| swap_case(k)));
     all.push("Zz".to_string());
     dedup(all)
+}
+
+/// a reader with a fault: `Interrupted` once before byte `at` (a reader must retry: the std
+/// `read_to_string` does), or a hard error at byte `at` (no partial document may be returned)
+pub struct Faulty<'a> {
+    pub data: &'a [u8],
+    pub at: usize,
+    pub hard: bool,
+    pub pos: usize,
+    pub fired: bool,
+}
+
+impl<'a> std::io::Read for Faulty<'a> {
+    fn read(&mut self, buf: &mut [u8]) -> std::io::Result<usize> {
+        if self.pos >= self.at && !(self.fired && !self.hard) {
+            if self.hard {
+                return Err(std::io::Error::new(std::io::ErrorKind::Other, "fault"));
+            }
+            self.fired = true;
+            return Err(std::io::Error::new(std::io::ErrorKind::Interrupted, "interrupted"));
+        }
+        let lim = if self.pos < self.at { self.at - self.pos } else { usize::MAX };
+        let n = buf.len().min(self.data.len() - self.pos).min(lim).min(5);
+        buf[..n].copy_from_slice(&self.data[self.pos..self.pos + n]);
+        self.pos += n;
+        Ok(n)
+    }
 }
 
 /// a reader that hands out at most `step` bytes per read() call
